@@ -2,6 +2,8 @@
 //! Usage: anydb-verif <PROPERTY> [--tier quick|thorough] [--replay <path>]
 
 mod c_crash;
+mod c_sched;
+mod sched;
 mod c_proc;
 mod c_lazy;
 mod c_eager;
@@ -86,10 +88,19 @@ fn main() {
         common::install_quiet_panic_hook();
         std::process::exit(c_codec::c17_shard(seed, shard, secs));
     }
+    if prop == "sched-confirm" {
+        common::install_quiet_panic_hook();
+        obs::install();
+        c_sched::confirm_child(args.get(1).map(|s| s.as_str()).unwrap_or(""), args.get(2).map(|s| s.as_str()).unwrap_or("[]"));
+    }
     if prop == "proc-child" {
         std::process::exit(c_proc::child_main());
     }
     let code = match prop.as_str() {
+        "C09" | "C10" | "C11" if ctx.replay.is_some() => c_sched::replay_sched(&ctx),
+        "C09" => c_sched::check_c09(&ctx),
+        "C10" => c_sched::check_c10(&ctx),
+        "C11" => c_sched::check_c11(&ctx),
         "C17" => c_codec::check_c17(&ctx),
         "C18" => c_proc::check_c18(&ctx),
         "C03" | "C04" | "C07" | "C08" | "C16" | "C20" if ctx.replay.is_some() => c_vec::replay_vec(&ctx, c_vec::replay_cfg(&prop)),
@@ -110,6 +121,41 @@ fn main() {
         "C14" => c_import::check_c14(&ctx),
         "C15" => c_lazy::check_c15(&ctx),
         "C16" => c_vec::check_c16(&ctx),
+        "dbg-explore" => {
+            let key = args.get(1).cloned().unwrap_or_default();
+            let runs: usize = args.get(2).and_then(|s| s.parse().ok()).unwrap_or(500);
+            let ex = if std::env::var("DFS").is_ok() {
+                c_sched::explore(&key, c_sched::Mode::Dfs { max_preempt: std::env::var("DFS").unwrap().parse().unwrap_or(1), max_runs: runs }, 1e9, &ctx)
+            } else {
+                c_sched::explore(&key, c_sched::Mode::Random { runs, seed: ctx.seed }, 1e9, &ctx)
+            };
+            println!("exhaustive {} max_steps {}", ex.exhaustive, ex.max_steps);
+            println!("runs {} distinct {} outcomes {:?} deadlocks {} failures {} stuck {:?}", ex.runs, ex.schedules.len(), ex.outcomes, ex.deadlocks.len(), ex.failures.len(), ex.stuck);
+            for (d, sch) in &ex.deadlocks {
+                println!("DEADLOCK {} confirmed={:?}", d.signature, c_sched::confirm_deadlock(&key, sch));
+            }
+            for f in ex.failures.iter().take(3) { println!("FAIL {} {}", f.0, f.1); }
+            0
+        }
+        "dbg-sched" => {
+            let key = args.get(1).cloned().unwrap_or("c09|Pco|partial_reencode|range_tail".into());
+            let t0 = Instant::now();
+            let mut tb = 0.0;
+            let mut tr = 0.0;
+            for k in 0..50u64 {
+                let a = Instant::now();
+                let c_sched::Scn { tmp, jobs, check } = c_sched::build(&key).unwrap();
+                tb += a.elapsed().as_secs_f64();
+                let b = Instant::now();
+                let r = sched::run(jobs, sched::Policy::Random { seed: k, stay: 60 }, sched::OnDeadlock::Abort, 4000);
+                tr += b.elapsed().as_secs_f64();
+                let res = check();
+                if k < 3 || res.is_err() { println!("run {k}: steps {} end {:?} check {:?}", r.steps.len(), matches!(r.end, sched::RunEnd::Completed), res); }
+                drop(tmp);
+            }
+            println!("50 runs: total {:.3}s build {:.3}s run {:.3}s", t0.elapsed().as_secs_f64(), tb, tr);
+            0
+        }
         "dbg-fpi" => {
             use vecdb::{AnyStoredVec, EagerVec, Exit, ImportableVec, LZ4Vec, ReadableVec, Version, WritableVec, ZstdVec, AnyVec};
             let tmp = common::TempDir::new("dbg");
